@@ -518,4 +518,83 @@ def getAtt (E : Env) (f : File) (varid : Int) (raw : Name) (asText : Bool) : Int
           else if (a.xtype = NC_CHAR) ≠ asText then (NC_ECHAR, [])
           else (NC_NOERR, a.vals)
 
+/-! ### several files at once: the world, and one step of a program -/
+
+def NC_EBADID : Int := -33
+
+structure World where
+  /-- the open handle of each slot -/
+  files : List (Option File)
+  /-- (format, header content) of the file behind each slot, once it has been closed -/
+  disks : List (Option (Nat × SHdr))
+
+inductive MOp where
+  | create (s : Nat) (c : Cfg)
+  | openF (s : Nat) (hd hv hg ha : Nat) (write : Bool)
+  | close (s : Nat)
+  | enddef (s : Nat)
+  | redef (s : Nat)
+  | defDim (s : Nat) (raw : Name) (size : Int)
+  | renameDim (s : Nat) (dimid : Int) (raw : Name)
+  | defVar (s : Nat) (raw : Name) (xtype : Int) (dimids : List Int)
+  | renameVar (s : Nat) (varid : Int) (raw : Name)
+  | putAtt (s : Nat) (varid : Int) (raw : Name) (isText : Bool) (xtype : Int) (vals : List Int)
+  | renameAtt (s : Nat) (varid : Int) (raw rawNew : Name)
+  | delAtt (s : Nat) (varid : Int) (raw : Name)
+  | copyAtt (s : Nat) (varid : Int) (raw : Name) (s2 : Nat) (varid2 : Int)
+
+def World.file (w : World) (s : Nat) : Option File := (w.files[s]?).getD none
+def World.disk (w : World) (s : Nat) : Option (Nat × SHdr) := (w.disks[s]?).getD none
+
+/-- apply a per-file operation to the open file of slot `s` (NC_EBADID when the slot is not open) -/
+def World.on (w : World) (s : Nat) (g : File → File × Int × Int) : World × Int × Int :=
+  match w.file s with
+  | none => (w, NC_EBADID, -1)
+  | some f => ({ w with files := w.files.set s (some (g f).1) }, (g f).2)
+
+/-- one API call of a program; result = (world, error code, id returned or -1) -/
+def wstep (E : Env) (w : World) : MOp → World × Int × Int
+  | .create s c =>
+    match w.file s with
+    | some _ => (w, NC_EINVAL, -1)
+    | none => ({ files := w.files.set s (some (create c)), disks := w.disks.set s none }, NC_NOERR, -1)
+  | .openF s hd hv hg ha write =>
+    match w.file s, w.disk s with
+    | none, some (fmt, d) =>
+      ({ w with files := w.files.set s (some (openFile E ⟨hd, hv, hg, ha, fmt⟩ d (!write))) }, NC_NOERR, -1)
+    | _, _ => (w, NC_EINVAL, -1)
+  | .close s =>
+    match w.file s with
+    | none => (w, NC_EBADID, -1)
+    | some f =>
+      ({ files := w.files.set s none, disks := w.disks.set s ((close f).map (fun d => (f.cfg.format, d))) },
+       NC_NOERR, -1)
+  | .enddef s => w.on s (fun f => ((enddef f).1, (enddef f).2, -1))
+  | .redef s => w.on s (fun f => ((redef f).1, (redef f).2, -1))
+  | .defDim s raw size => w.on s (fun f => defDim E f raw size)
+  | .renameDim s dimid raw => w.on s (fun f => ((renameDim E f dimid raw).1, (renameDim E f dimid raw).2, -1))
+  | .defVar s raw xtype dimids => w.on s (fun f => defVar E f raw xtype dimids)
+  | .renameVar s varid raw => w.on s (fun f => ((renameVar E f varid raw).1, (renameVar E f varid raw).2, -1))
+  | .putAtt s varid raw isText xtype vals =>
+    w.on s (fun f => ((putAtt E f varid raw isText xtype vals).1, (putAtt E f varid raw isText xtype vals).2, -1))
+  | .renameAtt s varid raw rawNew =>
+    w.on s (fun f => ((renameAtt E f varid raw rawNew).1, (renameAtt E f varid raw rawNew).2, -1))
+  | .delAtt s varid raw => w.on s (fun f => ((delAtt E f varid raw).1, (delAtt E f varid raw).2, -1))
+  | .copyAtt s varid raw s2 varid2 =>
+    match w.file s with
+    | none => (w, NC_EBADID, -1)
+    | some fin =>
+      w.on s2 (fun fout => ((copyAtt E fin varid raw fout varid2 (s == s2)).1,
+                            (copyAtt E fin varid raw fout varid2 (s == s2)).2, -1))
+
+/-- a whole program: the list of (error, id) results -/
+def wrun (E : Env) : World → List MOp → World × List (Int × Int)
+  | w, [] => (w, [])
+  | w, op :: rest =>
+    let r := wstep E w op
+    let rr := wrun E r.1 rest
+    (rr.1, r.2 :: rr.2)
+
+def World.init (nslots : Nat) : World := ⟨List.replicate nslots none, List.replicate nslots none⟩
+
 end PnVerif.Meta
